@@ -10,9 +10,9 @@ import (
 	m "verif/internal/model"
 )
 
-var serviceNames = []string{"calc", "storage", "users", "orders", "admin", "sommelier"}
+var serviceNames = []string{"calc", "storage", "users", "orders", "admin", "sommelier", "fleetUUIDs"}
 var hostileServiceNames = []string{"Service", "client", "http", "goa", "type", "foo_bar", "api v2", "Endpoints"}
-var methodNames = []string{"add", "list", "show", "create", "update", "remove", "get_item", "rate", "login", "multi_op"}
+var methodNames = []string{"add", "list", "show", "create", "update", "remove", "get_item", "rate", "login", "multi_op", "listIDs"}
 var hostileMethodNames = []string{"Mount", "New", "Use", "Service", "type", "func", "foo_bar", "fooBar", "NewClient", "error", "Error", "MethodNames", "string"}
 
 func (g *G) service(scope map[string]bool) {
